@@ -14,7 +14,7 @@
    * "does not change the remaining types" is decided by the PROVEN validator [wire_equiv]
      (C14_wire_equiv_sound: for every JSON instance), evaluated on the two real dumps. *)
 From Coq Require Import String ZArith NArith QArith List Bool.
-From Typify Require Import Base.Json IR.TypeIR IR.Serde Algo.Emit Algo.SettingsModel Check.WireEquiv
+From Typify Require Import Base.Json Spec.Schema IR.TypeIR IR.Serde Algo.Emit Algo.SettingsModel Check.WireEquiv
   Proofs.EmitProofs Proofs.SettingsProofs.
 From Typify Require Algo.Sanitize Proofs.SanitizeProofs.
 Import ListNotations.
@@ -163,6 +163,22 @@ Theorem C14_convert_everywhere_partial :
       forall conv_obj,
         convert_schema Sch strip seqb (cache_of Sch strip (before ++ (s, r) :: after)) conv_obj s' = native_entry r.
 Proof. exact convert_first_wins. Qed.
+
+(* [strip] concretely on the schema AST of Spec/Schema.v (by schema_ind'): after stripping NO
+   annotation is left at any position of the AST (items single / tuple, additionalItems,
+   properties.*, additionalProperties, allOf / anyOf / oneOf members, not), stripping is
+   idempotent, and the cache lookup keyed by it does not distinguish schemas that agree up to
+   annotations anywhere.  Positions the AST does not represent (propertyNames, patternProperties,
+   contains) are covered on the real code by the position-complete occurrences of every run. *)
+Theorem C14_conversion_lookup_ignores_annotations_everywhere :
+  (forall s, annotation_free (strip_annotations s) = true) /\
+  (forall s, strip_annotations (strip_annotations s) = strip_annotations s) /\
+  (forall (seqb : schema -> schema -> bool) c s s',
+     strip_annotations s = strip_annotations s' ->
+     cache_lookup schema strip_annotations seqb c s = cache_lookup schema strip_annotations seqb c s').
+Proof.
+  exact (conj strip_annotation_free (conj strip_annotations_idem conversion_lookup_ignores_annotations_everywhere)).
+Qed.
 
 (* Former finding C14-F1 (fixed in /repo by a0b7480): the strip is now recursive, so the
    lookup ignores annotations at EVERY depth.  Instance of the theorems above on a toy schema
